@@ -30,6 +30,7 @@ func init() {
 }
 
 func rulesC18(c *Ctx) {
+	ruleNoAliasingAppend(c, "C18.ALIASAPPEND", "boltz", "ast", "objectz", "zitiql")
 	ruleC18Globals(c)
 	ruleSharedInstance(c, "C18.SHAREDINSTANCE")
 	ruleC18Pool(c)
